@@ -400,7 +400,7 @@ def compare_spectra(t, r0, r1, L, k, tol, where, case, vectors=True):
     scale = np.max(np.abs(r1.Sy), axis=(0, 1))
     e = float(np.max(np.max(np.abs(r1.Sy - c * S0), axis=(0, 1)) / scale)) if c > 0 else np.inf
     t.err(f"spectral matrix ({where.split(':')[0]})", e)
-    if not e <= max(tol, 1e-7):
+    if not e <= tol:
         t.violation(f"spectrum:{where}", f"Sy of the transformed run differs from c L Sy L^T by {e:.3g} (relative, per line; c={c:.6g})", case)
     if not vectors:
         return True
@@ -443,7 +443,8 @@ def compare_mpe(t, r0, r1, L, k, tol, where, case):
     tf = max(tol, TOL_FIT) if fit else tol
     F0, F1 = np.asarray(m0["Fn"], float).ravel() * k, np.asarray(m1["Fn"], float).ravel()
     if F0.shape != F1.shape or np.shape(m0["Phi"]) != np.shape(m1["Phi"]):
-        t.violation(f"table-shape:{where}", f"extracted Fn/Phi {F0.shape}/{np.shape(m0['Phi'])} vs {F1.shape}/{np.shape(m1['Phi'])}", case)
+        t.violation(f"extracted-found-differs:{where}", f"number of extracted modes / shape of Phi: {F0.shape}/{np.shape(m0['Phi'])} in the "
+                    f"original run, {F1.shape}/{np.shape(m1['Phi'])} in the transformed one", case)
         return
     nan0, nan1 = ~np.isfinite(F0), ~np.isfinite(F1)
     if np.any(nan0 != nan1):
@@ -519,7 +520,7 @@ def run_pair(t, seed, kind, nch, variant, setting, tr, cache=None):
         runs.append(r)
     r0, r1 = runs
     t.states += 1
-    where = f"{fam}:{tr[0]}:{cls}"
+    where = f"{fam}:{tr[0]}:{variant}"
     if isinstance(r0, Exception) or isinstance(r1, Exception):
         if isinstance(r0, Exception) and isinstance(r1, Exception) and type(r0) is type(r1):
             t.violation(f"raises:{type(r0).__name__}:{cls}.run", f"both runs raise {r0!r:.200}", case)
